@@ -391,7 +391,160 @@ def replay_stack(r):
     return True, f"height={height} nvars={nvars}: no error raised (rc={proc.returncode}): {out}"
 
 
-HANDLERS = {"prop": replay_prop, "heur": replay_heur, "split": replay_split, "reducer": replay_reducer, "stack": replay_stack}
+CONS = {"bc": "CONSISTENCY_ALG_BC", "shaving": "CONSISTENCY_ALG_SHAVING"}
+VARH = {"first": "VAR_HEURISTIC_FIRST_NOT_INSTANTIATED", "smallest": "VAR_HEURISTIC_SMALLEST_DOMAIN", "greatest": "VAR_HEURISTIC_GREATEST_DOMAIN", "regret": "VAR_HEURISTIC_MAX_REGRET"}
+DOMH = {"min": "DOM_HEURISTIC_MIN_VALUE", "max": "DOM_HEURISTIC_MAX_VALUE", "split": "DOM_HEURISTIC_SPLIT_LOW", "mid": "DOM_HEURISTIC_MID_VALUE", "cost": "DOM_HEURISTIC_MIN_COST"}
+
+
+def build_real(w):
+    import nucs.heuristics.heuristics as H
+    import nucs.propagators.propagators as P
+    import nucs.solvers.consistency_algorithms as CA
+    from nucs.problems.problem import Problem
+    from nucs.solvers.backtrack_solver import BacktrackSolver
+
+    pb = Problem([tuple(d) for d in w["doms"]], list(w["dom_indices"]), list(w["offsets"]))
+    order = w.get("order") or list(range(len(w["props"])))
+    for pi in order:
+        pv, alg, params = w["props"][pi]
+        pb.add_propagator((list(pv), getattr(P, "ALG_" + alg.upper()), list(params)))
+    cfg = w.get("cfg") or {}
+    nd = len(w["doms"])
+    kw = dict(consistency_alg_idx=getattr(CA, CONS[cfg.get("cons", "bc")]), var_heuristic_idx=getattr(H, VARH[cfg.get("varh", "first")]), dom_heuristic_idx=getattr(H, DOMH[cfg.get("domh", "min")]), stack_max_height=cfg.get("height", 4 * nd + 8), log_level="CRITICAL")
+    if cfg.get("decision") is not None:
+        kw["decision_domains"] = list(cfg["decision"])
+    if "var_costs" in w:
+        kw["var_heuristic_params"] = w["var_costs"]
+    if "dom_costs" in w:
+        kw["dom_heuristic_params"] = w["dom_costs"]
+    return pb, kw, BacktrackSolver
+
+
+def real_history(pb, kw, history):
+    import nucs.heuristics.heuristics as H
+    import nucs.propagators.propagators as P
+    import nucs.solvers.consistency_algorithms as CA
+    from nucs.solvers.backtrack_solver import BacktrackSolver
+
+    for h in history or []:
+        if h == "other_solver_abandoned":
+            it = BacktrackSolver(pb, **kw).solve()
+            for _ in range(2):
+                try:
+                    next(it)
+                except StopIteration:
+                    break
+        elif h == "other_solver_exhausted":
+            for _ in BacktrackSolver(pb, **kw).solve():
+                pass
+        elif h == "minimize_first":
+            BacktrackSolver(pb, **kw).minimize(0)
+        elif h == "register_extras":
+            from nucs.propagators.dummy_propagator import compute_domains_dummy, get_complexity_dummy, get_triggers_dummy
+
+            P.register_propagator(get_triggers_dummy, get_complexity_dummy, compute_domains_dummy)
+            H.register_dom_heuristic(H.DOM_HEURISTIC_FCTS[0])
+            H.register_var_heuristic(H.VAR_HEURISTIC_FCTS[0])
+            CA.register_consistency_algorithm(CA.CONSISTENCY_ALG_FCTS[0])
+        elif h == "split":
+            pb.split(2, 0)
+        elif h == "init_twice":
+            pb.init()
+
+
+def run_real(w, limit=10000):
+    pb, kw, BacktrackSolver = build_real(w)
+    real_history(pb, kw, w.get("history"))
+    s = BacktrackSolver(pb, **kw)
+    mode = w.get("mode", "solve")
+    if mode == "solve":
+        sols = []
+        for x in s.solve():
+            sols.append([int(v) for v in x])
+            if len(sols) > limit:
+                break
+        return sols, s.get_statistics()
+    best = s.minimize(w["objective"]) if mode == "minimize" else s.maximize(w["objective"])
+    return ([] if best is None else [[int(v) for v in best]]), s.get_statistics()
+
+
+def semantic_solutions(w):
+    """independent enumeration of the cartesian product of the shared domains"""
+    out = []
+    for x in itertools.product(*[range(lo, hi + 1) for lo, hi in w["doms"]]):
+        vals = [x[d] + o for d, o in zip(w["dom_indices"], w["offsets"])]
+        if all(PYREL[alg]([vals[v] for v in pv], params) for pv, alg, params in w["props"]):
+            out.append(vals)
+    return out
+
+
+def _run_real_watchdog(w, seconds):
+    import signal
+    import subprocess
+    import tempfile
+
+    with tempfile.NamedTemporaryFile("w", suffix=".json", delete=False) as f:
+        json.dump(w, f)
+        path = f.name
+    code = "import sys,json\nsys.path.insert(0,%r)\nimport replay\nw=json.load(open(%r))\nprint('RESULT', json.dumps(replay.run_real(w)))\n" % (os.path.dirname(os.path.abspath(__file__)), path)
+    proc = subprocess.Popen([sys.executable, "-c", code], stdout=subprocess.PIPE, stderr=subprocess.PIPE, text=True, start_new_session=True)
+    try:
+        out, err = proc.communicate(timeout=seconds)
+    except subprocess.TimeoutExpired:
+        os.killpg(proc.pid, signal.SIGKILL)
+        proc.wait()
+        os.unlink(path)
+        return "timeout", None
+    os.unlink(path)
+    for line in out.splitlines():
+        if line.startswith("RESULT "):
+            return "ok", json.loads(line[7:])
+    return "error", (out + err)[-400:]
+
+
+def replay_solve(r):
+    kind = r["kind"]
+    st, res = _run_real_watchdog(r, float(os.environ.get("NUSYM_WATCHDOG_S", "30")))
+    if kind == "budget":
+        return st == "timeout", f"real run: {st}"
+    if st == "timeout":
+        return False, "real run timed out"
+    if st == "error":
+        if kind.startswith("obligation"):
+            return True, f"real run failed: {res}"
+        return False, f"real run failed: {res}"
+    sols, stats = res
+    sem = semantic_solutions(r)
+    info = f"real={sols[:6]} semantic={sem[:6]}"
+    mode = r.get("mode", "solve")
+    if kind == "reported-vector-is-not-a-solution":
+        return any(s not in sem for s in sols), info
+    if kind == "solution-yielded-twice" or kind == "more-solutions-than-assignments":
+        return len(sols) != len({tuple(s) for s in sols}), info
+    if kind == "solution-missing":
+        return any(s not in sols for s in sem), info
+    if kind == "none-although-feasible":
+        return (not sols) and bool(sem), info
+    if kind == "not-optimal":
+        if not sols:
+            return False, info
+        o = r["objective"]
+        best = min(s[o] for s in sem) if mode == "minimize" else max(s[o] for s in sem)
+        return sols[0][o] != best, info + f" optimum={best}"
+    if kind.startswith("counter-mismatch") or kind.startswith("obligation"):
+        return False, "needs the interpreted ghost run (see replay_stats)"
+    return False, f"unknown kind {kind}"
+
+
+def validate_solve(w):
+    sols, stats = run_real(w)
+    ok = sols == w["solutions"]
+    if ok and "stats" in w:
+        ok = {k: int(v) for k, v in stats.items()} == w["stats"]
+    return ok, f"real: solutions={sols} stats={stats}"
+
+
+HANDLERS = {"prop": replay_prop, "heur": replay_heur, "split": replay_split, "reducer": replay_reducer, "stack": replay_stack, "solve": replay_solve}
 
 
 def validate_prop(w):
@@ -400,7 +553,7 @@ def validate_prop(w):
     return ok, f"real: status={st} out={out}"
 
 
-VALIDATORS = {"prop": validate_prop, "split": validate_split}
+VALIDATORS = {"prop": validate_prop, "split": validate_split, "solve": validate_solve}
 
 
 def _load_ext():
